@@ -192,6 +192,16 @@ func (tr *FnTr) instr(in ssa.Instruction) {
 		obj := tr.newObject(tr.vname(x))
 		if tr.private[x] {
 			tr.top.privObjs = append(tr.top.privObjs, obj)
+			if privObjKeys != nil {
+				privObjKeys[obj.Key()] = true
+			}
+			if tr.depth == 0 {
+				if tr.top.privAllocObj == nil {
+					tr.top.privAllocObj = map[*ssa.Alloc]*Term{}
+				}
+				tr.top.privAllocObj[x] = obj
+				tr.top.privAllocList = append(tr.top.privAllocList, x)
+			}
 		}
 		tr.env[x] = Val{T: x.Type(), L: []*Term{obj, Int(0)}}
 		if strings.HasSuffix(x.Type().String(), "*bytes.Buffer") {
